@@ -51,6 +51,9 @@ REG = {
     'field_new_information': 46,
     'shared': 50, 'shared_clash': 51, 'shared_clash_only_by_sharing': 52,
     'shared_refined_by_sharing': 53,
+    'seq': 55, 'seq_close_on_alias': 56, 'seq_close_in_class_of_three': 57,
+    'seq_clash_against_closed_record': 58, 'seq_clash_free': 59,
+    'seq_three_references': 60,
 }
 # Constructs the property's quantifier / statement names: never exercised =>
 # machinery failure (exit 2), not a pass.
@@ -65,6 +68,8 @@ REQUIRED = [
     'elem', 'elem_clash', 'elem_new_information', 'field', 'field_clash',
     'field_new_information', 'shared', 'shared_clash',
     'shared_clash_only_by_sharing', 'shared_refined_by_sharing',
+    'seq', 'seq_close_on_alias', 'seq_close_in_class_of_three',
+    'seq_clash_against_closed_record', 'seq_clash_free', 'seq_three_references',
 ]
 
 
@@ -215,6 +220,22 @@ def RunCase(ra, case):
         ra.UnifyRecordField(refs[0], Key(case['f']), refs[1])
         yield Observe(ra, refs)
     runs.append({'o': [1, 2], 'obs': _Guard(Go, 2, 2)})
+  elif k == 'seq':
+    ops = case['ops']
+    def Go():
+      refs = [Build(ra, t, style) for t in terms]
+      for op in ops:
+        if op[0] == 'unify':
+          ra.Unify(refs[op[1] - 1], refs[op[2] - 1])
+        elif op[0] == 'close':
+          refs[op[1] - 1].CloseRecord()
+        elif op[0] == 'field':
+          ra.UnifyRecordField(refs[op[1] - 1], Key(op[2]),
+                              Build(ra, op[3], style))
+        else:
+          raise ValueError(op)
+        yield Observe(ra, refs)
+    runs.append({'o': [1], 'obs': _Guard(Go, len(ops), len(terms))})
   else:
     raise ValueError(k)
   return runs
@@ -255,6 +276,8 @@ def WriteShard(ra, cases, path, per_source=None):
       line['pd'] = c['pd']
     if c['k'] == 'field':
       line['f'] = c['f']
+    if c['k'] == 'seq':
+      line['ops'] = c['ops']
     if c['k'] == 'pair':
       line['x'] = 0 if c.get('in_lemma_universe') else 1
     lines.append(line)
@@ -410,6 +433,26 @@ def FieldSource(uname, recs, vals, fields):
                   'terms': [recs[i], vals[j]]})
     return out
   return Get, len(recs) * n * nf
+
+
+def ShowOp(op):
+  if op[0] == 'unify':
+    return 'Unify(r%d, r%d)' % (op[1], op[2])
+  if op[0] == 'close':
+    return 'r%d.CloseRecord()' % op[1]
+  return 'UnifyRecordField(r%d, %s, %s)' % (op[1], op[2], Show(op[3]))
+
+
+def SeqSource(name, seqs):
+  """Operation sequences TLC exported from TypeAlgebraStore."""
+  def Get(lo, hi):
+    out = []
+    for k in range(lo, hi):
+      st = ('ref', 'chain')[k % 2]
+      out.append({'id': '%s/seq/%d/%s' % (name, k, st), 'k': 'seq', 'style': st,
+                  'terms': seqs[k]['init'], 'ops': seqs[k]['ops']})
+    return out
+  return Get, len(seqs)
 
 
 def ListSource(cases):
@@ -569,16 +612,26 @@ LEMMA_CFGS = {
 }
 
 
+STORE_CFGS = {
+    'quick': ['two3', 'three3q'],
+    'thorough': ['two3', 'three3', 'two4', 'three4'],
+}
+
+
 def RunLemmas(tier):
   import concurrent.futures as cf
-  names = LEMMA_CFGS[tier]
+  names = LEMMA_CFGS[tier] + ['store_' + n for n in STORE_CFGS[tier]]
 
   def One(name):
+    if name.startswith('store_'):
+      return tlc.Run('TypeAlgebraStore',
+                     cfg='TypeAlgebraStore_%s.cfg' % name[6:], workers=4,
+                     timeout=3000, tag='C16_' + name, heap='3g')
     heavy = name in ('wide3', 'deep3')
     return tlc.Run('TypeAlgebraLemmas', cfg='TypeAlgebraLemmas_%s.cfg' % name,
                    workers=common.NCPU if heavy else 6, timeout=3000,
                    tag='C16_lemma_' + name, heap='6g' if heavy else '3g')
-  with cf.ThreadPoolExecutor(max_workers=3) as ex:
+  with cf.ThreadPoolExecutor(max_workers=5) as ex:
     results = list(ex.map(One, names))
   out = {}
   for name, r in zip(names, results):
@@ -589,6 +642,7 @@ def RunLemmas(tier):
         'violated': r.invariant_violated,
         'sizes': [int(x) for x in m.groups()] if m else None,
         'U': ParsePrinted(r.out, 'T'), 'U3': ParsePrinted(r.out, 'T3'),
+        'SEQ': ParsePrinted(r.out, 'SEQ'),
         'tail': '' if r.ok else r.out[-2500:],
     }
   return out
@@ -610,6 +664,8 @@ def Signature(case, fail):
   sig = {'kind': case['k'], 'clauses': '+'.join(clauses),
          'clause': clauses[0], 'style': case['style'],
          'tops': '/'.join(sorted(Top(t) for t in case['terms']))}
+  if case['k'] == 'seq':
+    sig['ops'] = '/'.join(op[0] for op in case['ops'])
   return sig
 
 
@@ -619,6 +675,12 @@ def Plan(tier, lem, rng):
   plan = {}
   thorough = tier == 'thorough'
   big = 10 ** 9
+  for name in STORE_CFGS[tier]:
+    cap = {'two3': big if thorough else 5000, 'three3q': 3000, 'three3': big,
+           'two4': big, 'three4': 40000}[name]
+    g, n, complete = Sampled(SeqSource(name, lem['store_' + name]['SEQ']), cap,
+                             rng)
+    plan['seq_' + name] = (g, n, 0, complete)
   for u in ('wide', 'mid', 'deep') + (('wide3', 'deep3') if thorough else ()):
     U = lem[u]['U']
     U3 = lem[u]['U3']
@@ -680,6 +742,7 @@ def Sample(ra, c):
           'terms': [Show(t) for t in c['terms']],
           'bounds_of_shared_references': [Show(t) for t in c.get('bounds', [])],
           'field': c.get('f', ''), 'order': runs[0]['o'],
+          'operations': [ShowOp(op) for op in c.get('ops', [])],
           'rendered_after_each_call': [[Show(x) for x in step]
                                        for step in runs[0]['obs']]}
 
@@ -698,8 +761,8 @@ def Run(tier):
     print('C16: model-level lemma run %s failed: violated=%s\n%s' % (
         k, lem[k]['violated'], lem[k]['tail']))
   for k, v in lem.items():
-    if v['ok'] and not (v['U'] and v['U3']):
-      machinery.append('lemma run %s exported no universe' % k)
+    if v['ok'] and not ((v['U'] and v['U3']) or v['SEQ']):
+      machinery.append('lemma run %s exported nothing' % k)
   if lemma_failed:
     # The specification contradicts itself: nothing can be judged with it.
     machinery.append('lemma failed: %s' % lemma_failed)
@@ -761,8 +824,10 @@ def Run(tier):
           'case': case, 'shown': [Show(t) for t in case['terms']],
           'signature': sig, 'fails': f['fails'][:4]})
       common.Violation(PROP, path)
-      print('  %s %s: %s  [%s]' % (case['k'], ' ~ '.join(
-          Show(t) for t in case['terms']), sig['clauses'], case['style']))
+      print('  %s %s%s: %s  [%s]' % (case['k'], ' ~ '.join(
+          Show(t) for t in case['terms']), ''.join(
+              '; ' + ShowOp(op) for op in case.get('ops', [])),
+                                   sig['clauses'], case['style']))
   if violations > printed:
     print('C16: %d failing cases in total (%d distinct signatures; one replay '
           'per signature, at most 25 printed)' % (violations, len(seen_sigs)))
@@ -791,7 +856,8 @@ def Run(tier):
                 regs['elem_clash'] + regs['elem_new_information'] +
                 regs['field_clash'] + regs['field_new_information'] +
                 regs['shared_clash_only_by_sharing'] +
-                regs['shared_refined_by_sharing'])
+                regs['shared_refined_by_sharing'] +
+                regs['seq_close_on_alias'])
   coverage = {
       'states': lemma_states + trace_states,
       'transitions': lemma_trans + trace_trans,
@@ -805,7 +871,11 @@ def Run(tier):
           'orders (x both linkings of the second call in the thorough tier, '
           'alternating in quick), every (list, element) and (record, field, '
           'value) of the wide universe through UnifyListElement / '
-          'UnifyRecordField, seeded random terms of depth <= 3 over fields '
+          'UnifyRecordField, every complete operation sequence (Unify / '
+          'CloseRecord on any reference / UnifyRecordField, <= 3 or 4 '
+          'operations over 2-3 references) containing a CloseRecord that TLC '
+          'exported from TypeAlgebraStore (or a seeded sample), '
+          'seeded random terms of depth <= 3 over fields '
           '0,1,a,b (deduplicated), and seeded stores with shared references '
           '(deduplicated); construction styles ref/close/raw/chain rotate.  '
           'evaluations = call sequences executed on the real code (each is '
@@ -815,7 +885,8 @@ def Run(tier):
           'meet is a clash or differs from every input (pairs, triples, '
           'derived constraints; for triples only the clash-free ones are '
           'counted), and for shared stores when sharing '
-          'changed the outcome.  Lists of lists are terms: the algebra itself '
+          'changed the outcome, and for operation sequences when CloseRecord was '
+          'called on a reference that has an alias.  Lists of lists are terms: the algebra itself '
           'does not forbid them, UnifyListElement adds Singular.' %
           '/'.join(sorted(lem))),
       'samples': samples,
@@ -876,8 +947,10 @@ def Replay(path):
     os.rmdir(_TraceDir())
   except OSError:
     pass
-  print('case %s [%s] %s' % (case['id'], case['style'],
-                             ' ~ '.join(Show(t) for t in case['terms'])))
+  print('case %s [%s] %s%s' % (case['id'], case['style'],
+                               ' ~ '.join(Show(t) for t in case['terms']),
+                               ''.join('; ' + ShowOp(op)
+                                       for op in case.get('ops', []))))
   for r in RunCase(ra, case):
     print('  order %s -> %s' % (r['o'], ' | '.join(
         ', '.join(Show(x) for x in step) for step in r['obs'])))
